@@ -11,6 +11,7 @@ from ..absval import UNKNOWN, Evaluator, walk
 from ..astutil import call_name, calls_in, kwarg, unparse
 from ..cfg import CFG, LocalDefs, path_text
 from ..index import AnalysisError, FuncInfo
+from ..inventory import recv_class
 from ..report import Ctx
 from ..reqtree import RequestTree, Router, action_routes
 from .common import node_calls, state_test
@@ -376,9 +377,13 @@ def r11_5(ctx: Ctx) -> None:
     ctx.rule("R11.5", "the mask is a function of the state the action will meet: the dry run keeps no memory and has no effect, "
                       "and nothing a permission rule reads is changed between mask and action (pre_timestep)")
     cv = ix.method("RequestManager.check_valid")
-    bad = [f"line {n.lineno}: store to {t}" for n, t in _stores(cv.node)]
+    # scratch containers created inside the call are not memory
+    fresh = {t.id for n in ast.walk(cv.node) if isinstance(n, ast.Assign) and isinstance(n.value, (ast.List, ast.Dict, ast.Set, ast.ListComp, ast.DictComp))
+             or isinstance(n, ast.Assign) and isinstance(n.value, ast.Call) and isinstance(n.value.func, ast.Name) and n.value.func.id in ("list", "dict", "set") and not n.value.args
+             for t in n.targets if isinstance(t, ast.Name)}
+    bad = [f"line {n.lineno}: store to {t}" for n, t in _stores(cv.node) if t.split("[")[0].split(".")[0] not in fresh]
     for c in calls_in(cv.node):
-        if call_name(c) in MUTATORS and isinstance(c.func, ast.Attribute):
+        if call_name(c) in MUTATORS and isinstance(c.func, ast.Attribute) and not (isinstance(c.func.value, ast.Name) and c.func.value.id in fresh):
             bad.append(f"line {c.lineno}: {unparse(c.func)}(...) mutates its receiver")
     ctx.record("R11.5", ctx.key(cv, "dry run stores nothing"), cv.loc(), not bad,
                "check_valid performs no store and calls no mutator: each call evaluates the guards afresh" if not bad else
@@ -390,6 +395,7 @@ def r11_5(ctx: Ctx) -> None:
                "only mask[...] is written" if not badm else "action_mask writes other state", badm[:6])
     # pre_timestep closure
     n_pre = 0
+    simc = ix.cls("SimComponent")
     for fn in ix.all_functions():
         if fn.name != "pre_timestep" or fn.cls is None or not fn.path.startswith("src/primaite/simulator/"):
             continue
@@ -406,7 +412,10 @@ def r11_5(ctx: Ctx) -> None:
             for c in calls_in(f.node):
                 nm = call_name(c)
                 if nm in LIFECYCLE_CALLS and isinstance(c.func, ast.Attribute) and not (isinstance(c.func.value, ast.Call) and call_name(c.func.value) == "super"):
-                    problems.append(f"{f.short} line {c.lineno}: calls {unparse(c.func)}()")
+                    # only operations of simulation components count (a logger's close(), a timer's start() do not)
+                    rc = f.cls if unparse(c.func.value) == "self" else recv_class(ix, f, c.func.value)
+                    if rc is not None and ix.is_subclass(rc, simc) and ix.find_method(rc, nm) is not None:
+                        problems.append(f"{f.short} line {c.lineno}: calls {unparse(c.func)}() of {rc.short}")
                 if isinstance(c.func, ast.Attribute) and unparse(c.func.value) == "self" and depth[id(f)] < 2 and f.cls is not None:
                     h = ix.find_method(f.cls, c.func.attr)
                     if h is not None and id(h) not in seen and not isinstance(h.node, ast.Lambda) and h.name != "pre_timestep":
